@@ -119,6 +119,7 @@ func runGossip(seed int64, out string, traces, n, steps int, schedName, store st
 		schedName = schedName[7:]
 	}
 	nfaults := 0
+	nlost := 0
 	lossy := false
 	if len(schedName) > 6 && schedName[:6] == "lossy-" {
 		lossy = true
@@ -215,6 +216,12 @@ func runGossip(seed int64, out string, traces, n, steps int, schedName, store st
 					nfaults++
 				}
 			}
+			if faults && t%2 == 1 && k > steps/4 && w.rng.Intn(40) == 0 && cn.byNum[a].app.loseReply == 0 && !cn.byNum[a].app.lostFired {
+				// the application processes a block but its reply is lost (socket proxy
+				// hiccup): the node logs the error, keeps the block unsigned and goes on
+				cn.byNum[a].app.loseReply = 1 + w.rng.Intn(2)
+				nlost++
+			}
 			cn.SyncStep(cn.byNum[a], cn.byNum[b], limit, full > 0 && k%full == 0)
 			if faults && cn.byNum[a].fs != nil && cn.byNum[a].fs.burst {
 				cn.byNum[a].fs.Disarm()
@@ -233,7 +240,7 @@ func runGossip(seed int64, out string, traces, n, steps int, schedName, store st
 	}
 	s.Traces = traces
 	s.Lines = w.lines
-	s.Extra = map[string]interface{}{"store_faults_armed": nfaults, "responses_mangled": nmangled}
+	s.Extra = map[string]interface{}{"store_faults_armed": nfaults, "commit_replies_lost_armed": nlost, "responses_mangled": nmangled}
 	w.CloseTrace()
 	return s
 }
@@ -273,6 +280,12 @@ func (cn *CoreNet) MonologueStep(a *CNode, full bool) {
 	mx := map[string]interface{}{"from": 0, "evs": []string{}, "ins": []string{}, "new": created}
 	if cn.pred != nil {
 		mx["pred"] = cn.pred
+	}
+	if a.app.lostFired && a.nospec == "" {
+		a.nospec = "commit-reply-lost"
+	}
+	if a.nospec != "" {
+		mx["nospec"] = a.nospec
 	}
 	cn.w.Emit(a.num, "Sync", mx, o)
 	cn.steps++
